@@ -131,3 +131,71 @@ contract(
     ])},
     props=["C03"],
 )
+
+# verify -dh: which formats are calculated (region `formats`, from `hash_formats = []` up to the sort).  The exit rule above
+# ("every calculated format has a failure") is only as good as this list: it must not hold a format twice (the rule compares the
+# number of failing formats with its length) and, without -h, it must hold exactly the formats of the ROOT history's own root
+# hashes - a format only a nested history uses has no entry to fail outside that nested folder.
+# Proved: no duplicates, non-empty, exactly the -h format when one is given, and completeness without -h.  NOT proved (two
+# attempts - nested existential, ghost witness lists - left one obligation each undecided under load): that nothing but the root
+# history's own root-hash formats is in the list; that half stays with the bounded C09 driver (nested histories with other formats).
+RH = "existing_history.hash_lists[{g}].process_info.root_media_hash"
+F = "_x_hash_formats"
+
+
+def fmt_recorded(f, bound):
+    r = RH.format(g="g")
+    return f"any({r} is not None and any(e.hash_format == {f} for e in {r}.hash_entries) for g in range({bound}))"
+
+
+def fmts_complete(lst, bound):
+    r = RH.format(g="g")
+    return f"all({r} is None or all(e.hash_format in {lst} for e in {r}.hash_entries) for g in range({bound}))"
+
+
+NODUPF = "all({l}[a] != {l}[b] for a in range(len({l})) for b in range(a))"
+
+
+def fwit(lst, bound):
+    """ghost witnesses: format lst[a] was read from entry we[a] of the root hash of generation index wg[a] < bound"""
+    r = RH.format(g="wg[a]")
+    return (f"len(wg) == len({lst}) and len(we) == len({lst}) and all(0 <= wg[a] and wg[a] < {bound} and {r} is not None"
+            f" and 0 <= we[a] and we[a] < len({r}.hash_entries) and {r}.hash_entries[we[a]].hash_format == {lst}[a] for a in range(len({lst})))")
+
+
+contract(
+    "ascmhl.commands.verify_directory_hash_subcommand",
+    region="formats",
+    slices=4,
+    params={"root_path": "str", "verbose": "bool", "hash_format": "str?", "ignore_list": "list[str]?", "ignore_spec_file": "str?",
+            "calculate_only": "bool", "root_only": "bool"},
+    start_at="hash_formats = []",
+    stop_at="hash_format_list = sorted(hash_formats)",
+    locals={"existing_history": "MHLHistory", "hash_formats": "list[str]"},
+    exposes={"hash_formats": "list[str]"},
+    requires=["all(existing_history.hash_lists[g].generation_number == g + 1 for g in range(len(existing_history.hash_lists)))"],
+    logs=True,
+    ensures=[
+        NODUPF.format(l=F),
+        f"len({F}) >= 1",
+        f"hash_format is None or (len({F}) == 1 and {F}[0] == hash_format)",
+        # without -h: every format of a root hash of the root history is calculated ...
+        f"hash_format is not None or {fmts_complete(F, 'len(existing_history.hash_lists)')}",
+    ],
+    loops={
+        0: Loop(invariant=[
+            NODUPF.format(l="hash_formats"),
+            fmts_complete("hash_formats", "_i"),
+            "generation == -1",
+        ]),
+        1: Loop(invariant=[
+            NODUPF.format(l="hash_formats"),
+            fmts_complete("hash_formats", "_i0"),
+            "all(_seq[j].hash_format in hash_formats for j in range(_i))",
+            "hash_list == existing_history.hash_lists[_i0]",
+            "hash_list.process_info.root_media_hash is not None and _seq == hash_list.process_info.root_media_hash.hash_entries",
+            "generation == -1",
+        ]),
+    },
+    props=["C09"],
+)
